@@ -78,8 +78,9 @@ var (
 )
 
 func ccFingerprint(sp *saml2.SAMLServiceProvider, entry, enc string) string {
-	res, data, errc := callEntry(sp, entry, enc)
-	return res + "|" + data + "|" + errc
+	// (the error's text is part of the outcome: identical calls give identical outcomes)
+	res, data, errc, text := callEntryText(sp, entry, enc)
+	return res + "|" + data + "|" + errc + "|" + text
 }
 
 func ccInbound() map[string][]ccMsg {
@@ -112,7 +113,13 @@ func ccInbound() map[string][]ccMsg {
 				}
 				return idp.Plain(root)
 			}
-			plain := sso(nil)
+			// the summary of this message carries a ProxyRestriction with several audiences (their order is part of the result)
+			plain := sso(func(rs *idp.Response, a *idp.Assertion, root *etree.Element) {
+				if a != nil {
+					a.Conditions.Proxy = &idp.Proxy{Count: idp.I(2), Audiences: []string{"https://c.example/3", "https://a.example/1", "https://b.example/2", "https://d.example/4"}}
+					a.Conditions.OneTimeUse = k%2 == 0
+				}
+			})
 			add("validateRaw", "validate", k, plain, false)
 			add("validateDeflate", "validate", k, plain, true)
 			add("infoDeflate", "info", k, plain, true)
@@ -126,6 +133,30 @@ func ccInbound() map[string][]ccMsg {
 					root.AddChild(etree.NewCData(""))
 				}
 			}), true)
+			// two assertions of an unsigned Response that fail for different reasons: altered after signing / never signed
+			{
+				rs := genuineRoot()
+				rs.ID = fmt.Sprintf("_resp-twobad-%d", k)
+				root := b.ResponseEl(rs)
+				a1 := world.Content("GA1")
+				a1.ID = fmt.Sprintf("_as-twobad-a-%d", k)
+				e1 := b.AssertionEl(a1, false)
+				root.AddChild(e1)
+				a2 := world.Content("GA2")
+				a2.ID = fmt.Sprintf("_as-twobad-b-%d", k)
+				e2 := b.AssertionEl(a2, false)
+				root.AddChild(e2)
+				altered, unsigned := e1, e2
+				if k%2 == 1 {
+					altered, unsigned = e2, e1
+				}
+				_ = unsigned
+				mustSign(altered, idp.DefaultSig(w.IdpA.Key, w.IdpA.DER))
+				for _, n := range altered.FindElements(".//NameID") {
+					n.SetText("mallory@example.com")
+				}
+				add("twoBad", "validate", k, idp.Plain(root), k%3 == 0)
+			}
 			// encrypted
 			{
 				a := world.Content("GA1")
@@ -161,7 +192,8 @@ func ccInbound() map[string][]ccMsg {
 					acc++
 				}
 			}
-			if (op == "refusedDeflate") != (acc == 0) || (op != "refusedDeflate" && acc != ccK) {
+			refused := op == "refusedDeflate" || op == "twoBad"
+			if refused != (acc == 0) || (!refused && acc != ccK) {
 				// genuine messages refused (or refusable ones accepted) even alone: every result of this operation is wrong
 				ccBadAlone[op] = fmt.Sprintf("alone results of %s are not as intended (%d of %d accepted): %s", op, acc, ccK, ms[0].alone)
 			}
